@@ -73,6 +73,11 @@ def producer():
 
 
 def consumer(x):
+    if _fault().get("mode") == "raise_busy_sibling":
+        if x == ("p", 0):
+            time.sleep(1.5)          # the sibling has begun its long computation by now
+            raise RuntimeError("injected failure next to a busy sibling")
+        time.sleep(600)              # a long task body: this worker does not read WorkerShutdown
     _strike("before", "t2")
     r = ("c", x)
     _strike("after_compute", "t2")
